@@ -180,6 +180,37 @@ class Ctx:
             self.stats["feas_unknown"] += 1
         return r, s
 
+    def check_pinned(self, tries=4, timeout_ms=4000):
+        """Feasibility by a solver-verified witness: the base (input) symbols are pinned to pseudo-random dyadic
+        rationals, z3 only has to extend the point to the definitional symbols (roots, POW applications, fractions) and
+        check the constraints.  sat => the path is feasible (a model exists); anything else says nothing."""
+        from . import axioms
+        import zlib
+        cs = self.base_constraints()
+        axs = list(axioms.instances(cs, self))
+        deff = set(getattr(self, "_root_defs", {})) | set(getattr(self, "_uf_defs", {})) | set(getattr(self, "_csqrt_defs", {}))
+        for j in range(tries):
+            s = mk_solver(timeout_ms)
+            for c in cs:
+                s.add(c)
+            for a in axs:
+                s.add(a)
+            for name, t in self.symbols.items():
+                if not z3.is_real(t) or t.get_id() in deff:
+                    continue
+                h = zlib.crc32(("%s|pin%d" % (name, j)).encode())
+                k = (h % 31) + 1
+                if t.get_id() in self.known_neg or (t.get_id() not in self.known_pos and (h >> 9) & 1):
+                    k = -k
+                s.add(t == z3.RatVal(k, 8))
+            t0 = time.time()
+            r = s.check()
+            self.stats["solver_time"] += time.time() - t0
+            if r == z3.sat:
+                self.stats["pinned_witness"] = self.stats.get("pinned_witness", 0) + 1
+                return z3.sat, s
+        return z3.unknown, None
+
     def _witnesses(self):
         """[(solver, model)]: models of `symbol == pseudo-random dyadic rational` for every real symbol."""
         import zlib
